@@ -478,30 +478,53 @@ def cornerstone_list(tier):
                 if v == "a_retry" and (p + q) % 2:
                     continue        # half of the pairs: the retry scenario is about A alone
                 out.append((f.name, p, q, v))
+    # cross-family pairs inside one package: families that share a Python package share modules, base classes and
+    # module-level state (radshocks' function table, Rod1D's class body behind the planar sandwiches, ep_riemann/utils)
+    by_pkg = {}
+    for f in T.FAMILIES.values():
+        if not _enabled(f, tier):
+            continue
+        pkg = f.classes[0].split(".")[0]
+        by_pkg.setdefault(pkg, []).append(f)
+    for pkg, fams in sorted(by_pkg.items()):
+        if len(fams) < 2:
+            continue
+        combos = [(0, 0)] if len(fams) > 4 else [(0, 0), (0, 1), (1, 0), (1, 1)]
+        for fa in fams:
+            for fb in fams:
+                if fa is fb:
+                    continue
+                for (p, q) in combos:
+                    if p >= len(fa.pool) or q >= len(fb.pool):
+                        continue
+                    for v in (("plain", "b_between") if len(fams) > 4 else ("plain", "b_between", "a_aborted")):
+                        out.append((fa.name, p, q, v, fb.name))
     return out
 
 
 def make_cornerstone(seed, tier, k, prop="C06"):
     world.load()
     lst = cornerstone_list(tier)
-    fname, p, q, variant = lst[k % len(lst)]
+    entry = lst[k % len(lst)]
+    fname, p, q, variant = entry[:4]
     fam = T.FAMILIES[fname]
+    fam_b = T.FAMILIES[entry[4]] if len(entry) > 4 else fam
     rng = random.Random(h64(seed, tier, "corner", k))
     cfg = dict(BASE_CFG)
     cfg.update(n_choices=[3, 5, 7], share_eos=0.5, share_ic=0.5, plain_container=0.7, refill=0.0, bb_setters=0.5)
-    g = Gen(rng, [fam], cfg)
+    g = Gen(rng, [fam, fam_b], cfg)
     base = "exactpack.solvers." + fam.classes[0]
     # wrappers restrict the usable pool; use the base class whenever it accepts the entry
     a = g.new_op(0, fam, qual=_qual_for(fam, p), pi=p)
     intents = []
     if variant == "b_fails":
-        b = g.new_op(1, fam, qual=_qual_for(fam, q), pi=q, bad="unknown")
+        b = g.new_op(1, fam_b, qual=_qual_for(fam_b, q), pi=q, bad="unknown")
     elif variant == "b_between":
         pa, ta, la = g.request_points(a)
         g.call_op(0, a, pa, ta, la)
-        b = g.new_op(1, fam, qual=_qual_for(fam, q), pi=q)
+        b = g.new_op(1, fam_b, qual=_qual_for(fam_b, q), pi=q)
     else:
-        b = g.new_op(1, fam, qual=_qual_for(fam, q), pi=q)
+        b = g.new_op(1, fam_b, qual=_qual_for(fam_b, q), pi=q)
     if variant != "b_between":
         pa, ta, la = g.request_points(a)
         first = g.call_op(0, a, pa, ta, la)
@@ -533,8 +556,8 @@ def make_cornerstone(seed, tier, k, prop="C06"):
     if rng.random() < 0.5:
         run["alloc"] = fhex(rng.choice(ALLOC_PATTERNS[1:]))     # dirty allocation (F7) in half of the cornerstone runs
     spec = {"seed": seed, "tier": tier, "index": k, "prop": prop, "kind": "cornerstone",
-            "config": {"family": fname, "p": p, "q": q, "variant": variant},
-            "families": [fname], "run": run, "ops": g.ops, "intents": intents, "faults": []}
+            "config": {"family": fname, "family_b": fam_b.name, "p": p, "q": q, "variant": variant},
+            "families": sorted({fname, fam_b.name}), "run": run, "ops": g.ops, "intents": intents, "faults": []}
     return spec
 
 
